@@ -155,7 +155,7 @@ PROPS = {
         explanation="rolling CRC identity for listed window sizes (normal form) and the slice search of the real decoder on damaged files",
         assumptions=["window sizes not listed are outside the claim", "scenario contents: fixed distinct / fixed duplicate-slice contents with symbolic damage bytes"],
         jobs=[
-            J("par2", "C16_crc_window", bound="window sizes 4,8,12,16,20,32,64; all windows of n+1 symbolic bytes"),
+            J("par2", "C16_crc_window", bound="window sizes 4,8,12,16,20,32,64,252,256; all windows of n+1 symbolic bytes"),
             J("par2", "C16_crc_window_big", tier="thorough", bound="window sizes 24,28,100,128,256,512,1000,2000"),
             J("par2", "C16_search_arbitrary", bound="1 file of 4/5/8 bytes, slice 4; insertion of 1..4 bytes, truncation at every length, appended bytes, one overwritten slice"),
             J("par2", "C16_search_sym", tier="thorough", bound="1 file of 4/5 fully symbolic bytes; insertion, truncation, append; oracle = slices surviving at a non-overlapped offset", timeout=3000),
